@@ -83,6 +83,22 @@ def rule_al_semantics(F, R, f):
     FX0, G0, X0 = kalg.sym("fx0"), kalg.sym("g0"), kalg.sym("x0")
     preset = {roles[k]["d"] for k in ("fc", "eq", "mu", "ro")} | {gcv["d"]}
     arg = RO / 2 * (FC + MU / RO) ** 2
+    # the multiplier as the body uses it: the stored lambda / miu entry itself (any sign), whatever the selection expression does to it
+    mu_eff = {}
+    init = roles["mu"]["c"][0]
+    atoms = {}
+    for y in walk(init):
+        if y["k"] == "call" and y.get("op") == "()" and y.get("c") and skip(y["c"][0])["k"] == "mem" and skip(y["c"][0])["n"] in ("m_lambda", "m_miu"):
+            atoms[pp(y)] = "mu"
+    try:
+        e_ = kalg.Conv(f, atoms=atoms, funcs={"std::max": lambda u, v: sp.Max(u, v), "std::min": lambda u, v: sp.Min(u, v), "std::fabs": lambda u: sp.Abs(u)},
+                       subst={roles["eq"]["d"]: sp.Symbol("eqflag")}, inline=False).conv(init)
+        for eq in (True, False):
+            v_ = e_.subs(sp.Symbol("eqflag"), sp.true if eq else sp.false) if hasattr(e_, "subs") else e_
+            v_ = sp.piecewise_fold(v_) if isinstance(v_, sp.Basic) else v_
+            mu_eff[eq] = sp.simplify(v_.subs(kalg.sym("mu"), MU)) if isinstance(v_, sp.Basic) else MU
+    except kalg.OutOfFragment:
+        mu_eff = {True: MU, False: MU}
     res = {}
     try:
         for eq in (True, False):
@@ -93,7 +109,7 @@ def rule_al_semantics(F, R, f):
                 it.env[roles["fx"]["d"]] = FX0
                 it.env[roles["ro"]["d"]] = RO
                 it.env[roles["fc"]["d"]] = FC
-                it.env[roles["mu"]["d"]] = MU
+                it.env[roles["mu"]["d"]] = mu_eff[eq]
                 it.env[roles["eq"]["d"]] = sp.true if eq else sp.false
                 it.env[gcv["d"]] = [GC]
                 for st in body.get("c", ()):
@@ -189,7 +205,14 @@ def rule_kernels(F, R):
     rule_al_semantics(F, R, f)
     # R-C05-7 multiplier pairing
     mu = [v for v in f.nodes() if v["k"] == "var" and v["n"] == "mu" and v.get("c")]
-    okm = bool(mu) and pp(mu[0]["c"][0]) == "(eq ? m_lambda((ilambda++)) : m_miu((imiu++)))"
+    # structure, not spelling: a selection on `eq` whose equality arm reads m_lambda at a post-incremented counter and whose inequality arm reads
+    # m_miu at another one (whatever else the arms do to the value is the business of R-C05-1/2)
+    okm = False
+    if mu:
+        sel = skip(mu[0]["c"][0])
+        if sel["k"] == "cond" and pp(sel["c"][0]) == "eq":
+            arms = [[pp(y) for y in walk(sel["c"][i_]) if y["k"] == "call" and y.get("op") == "()"] for i_ in (1, 2)]
+            okm = "m_lambda((ilambda++))" in arms[0] and "m_miu((imiu++))" in arms[1] and not any("m_miu" in t_ for t_ in arms[0]) and not any("m_lambda" in t_ for t_ in arms[1])
     others = [x for x in f.nodes() if incdec(x) and pp(incdec(x)[0]) in ("ilambda", "imiu")]
     R.check(okm and len(others) == 2, "R-C05-7", "AL multiplier index", f.loc(mu[0]) if mu else f.loc(), "one counter per kind, advanced once per constraint of that kind",
             "multiplier selection is %s with %d counter increments" % (pp(mu[0]["c"][0]) if mu else None, len(others)))
